@@ -51,7 +51,7 @@ func init() {
 			"chains, else a sub-multiset of the combined result that is duplicate-free when the last operator is UNION). Non-trivial: >=1 duplicate " +
 			"output row / overlapping branches.",
 		Assumptions: []string{
-			"a third of the cases run inside an envelope that must not change the result: PostgresEscapingDialect / IdiomaticArrays on (the query uses neither double quotes nor brackets), Wrapped() with FROM root.<table>, tables handed over as []map[string]any, and a second execution on the same input object",
+			"a third of the cases run inside an envelope that must not change the result: PostgresEscapingDialect / IdiomaticArrays on (the query uses neither double quotes nor brackets), Wrapped() with FROM root.<table>, tables handed over as []map[string]any, a second execution on the same input object, and the same query text run before on a different document",
 			"branches that share a column name hold the same scalar kind in it; no ORDER BY on a union",
 		},
 		Gen: func(t *rapid.T) any {
